@@ -141,6 +141,10 @@ EXTRA = {
     'C20': "Also: scrambled data / expiry tables, value columns called 'val', one table object for two inputs, one lifted function serving several calls (defaults survive).",
 }
 
+EXTRA2 = {'C01': 'd += x, string scalars as long as the table, derived columns from functions reading no column.', 'C02': 'suite modes (every mode on m x n key groups with None / tuple / list cells in the shared column, key-less cross products with non-scalar cells), computed keys in first position.', 'C03': 'the fill method spelt as a list (one list object over several calls), dicts built in non-sorted key order, df_index on nested containers, partly observed frame rows.', 'C05': 'suite range_ends (four-week calendars, results landing on the first / last day of the range) and dates carrying a time of day.', 'C06': 'suite extras (infinite cells / condition values under both readings of NaN, underscored column names, ints beyond 2**53 against floats), predicates wrapped by library decorators.', 'C07': 'ints beyond the float mantissa, dicts with cmp-equal but distinct keys, tables in which one key object recurs between cmp-equal others.', 'C08': 'a fill method on div_ / add_, policy spellings (outer, upper case), operands indexed at another datetime resolution.', 'C09': 'suite compound_intraday (h/n/s parts mixed with business-day parts from intraday starts, starts written as date / datetime64 / Timestamp / int / string, tz-aware starts, named tenors inside multi-bump calls).', 'C11': 'string keys differing only in case, a column called grp / a grp label naming a column, a key column whose name contains the other names.', 'C12': 'row-dropping steps before fnna, a constant with a limit (array-vs-pandas only).', 'C13': 'one timestamp occurring twice, NaN-valued rows in stitched series.', 'C14': 'namedtuple / list-subclass instances, int arrays beyond 2**53 against float arrays, object arrays holding one-element arrays, empty arrays of different shapes.', 'C16': 'values that are themselves mappings (d + other into them, d - k.x), dependencies declared with Python defaults, a NaN object as ulist element.', 'C17': 'suite axes: forward-dated observation dates, versions listing dates newest first, revisions in the tenth digit, tz-aware stamps read in another zone.', 'C18': 'pd2np built with exc=, callargs surviving call_with_callargs, sentinel-object defaults, suite cache_reentrant (a cached recursive function).', 'C19': 'dict companions in another insertion order / as dictattr, a 1-tuple holding a list in zipper.', 'C20': 'explicit empty defaults on a function with Python defaults, list-valued scalars, tables carrying extra columns called data / expiry.'}
+for _k, _v in EXTRA2.items():
+    EXTRA[_k] = EXTRA[_k] + ' Later rounds: ' + _v
+
 NOT_READY = set([])
 
 PENDING_REASON = 'check under construction in this session (claimed in DESIGN.md; will move to checks once its module is committed)'
